@@ -316,7 +316,6 @@ where
                 return ControlFlow::Break(());
             }
         };
-        self.init_channel(&policy);
 
         if is_leader {
             if !matches!(self.state_kind, PolicyStateKind::Init) {
@@ -329,6 +328,9 @@ where
                 );
                 return ControlFlow::Continue(self);
             }
+            // Only an accepted schedule may (re-)create the MPC channel endpoints: a rejected
+            // duplicate must not replace the endpoints of a computation that is under way.
+            self.init_channel(&policy);
             record_span_fields(&self.start_span, &policy.computation_id, policy.party);
             let client = self.client_builder.new_client(&policy);
 
@@ -397,6 +399,12 @@ where
             // Schedule on a follower
             let client = self.client_builder.new_client(&policy);
 
+            if matches!(
+                self.state_kind,
+                PolicyStateKind::Init | PolicyStateKind::ValidateRequested { .. }
+            ) {
+                self.init_channel(&policy);
+            }
             match self.state_kind {
                 PolicyStateKind::Init => {
                     record_span_fields(&self.start_span, &policy.computation_id, policy.party);
